@@ -313,6 +313,7 @@ class Bridge(IoMixin):
         """
         L = self.L
         s = Handle(self, L.akb_slice_new(), L.akb_slice_free)
+        self.last_slice_operands = []      # (kind, handle, dump before use): re-read by slice_operands_modified()
         for it in items:
             t = it["t"]
             if t == "at":
@@ -346,6 +347,7 @@ class Bridge(IoMixin):
                 if not ih:
                     self._raise()
                 item = Handle(self, ih, L.akb_sliceitem_free)
+                self.last_slice_operands.append(("content", ch, self.describe_text(ch)))
                 self._n(L.akb_slice_item(s.p, item.p))
             else:
                 raise ValueError(t)
@@ -360,7 +362,21 @@ class Bridge(IoMixin):
         flat = arr.reshape(-1)
         ih = self._i(self.L.akb_index(4, flat.ctypes.data, len(flat), 0, arr.shape[0]))
         # the binding hands the whole buffer and shape[0] as the Index length
+        self.last_slice_operands.append(("index", ih, [int(x) for x in flat[:arr.shape[0]]]))
         self._n(self.L.akb_slice_array(s.p, ih.p, nd, shape, strides, 1 if frombool else 0))
+
+    def slice_operands_modified(self):
+        """after an operation that used the last slice built: which of its array operands changed (purity monitor)"""
+        out = []
+        for kind, h, before in getattr(self, "last_slice_operands", []):
+            if kind == "index":
+                now = list(self.index_describe(h)["v"])
+                if now != before:
+                    out.append({"operand": "index array", "before": before[:12], "after": now[:12]})
+            else:
+                if self.describe_text(h) != before:
+                    out.append({"operand": "array used as index"})
+        return out
 
     def slice_tostring(self, s):
         return self._s(self.L.akb_slice_tostring(s.p))
